@@ -91,7 +91,19 @@ def main():
     finally:
         run(["git", "-C", "/repo", "worktree", "remove", "--force", wt], "/")
         run(["git", "-C", "/repo", "worktree", "prune"], "/")
-    json.dump(res, open(os.path.join(d, "result.json"), "w"), indent=1)
+    # a partial re-run (--checks / --skip-demo) keeps what earlier runs established
+    rp = os.path.join(d, "result.json")
+    if os.path.exists(rp):
+        try:
+            old = json.load(open(rp))
+            for k, v in old.get("checks", {}).items():
+                res["checks"].setdefault(k, v)
+            for k in ("demo_without_patch", "demo_with_patch", "demo_output_with_patch"):
+                if k not in res and k in old:
+                    res[k] = old[k]
+        except Exception:
+            pass
+    json.dump(res, open(rp, "w"), indent=1)
     print(json.dumps(res, indent=1))
 
 
